@@ -44,8 +44,16 @@ func flatPresize(f *flatVal, n, c int) {
 	switch flatRouteOf(f.t) {
 	case frRootsList, frRootsVector:
 		f.roots = make([]tree.Root, n, c)
+		for i := range f.roots {
+			for j := range f.roots[i] {
+				f.roots[i][j] = 0xEE // stale contents
+			}
+		}
 	case frByteList, frByteVector, frBitList, frBitVector:
 		f.bytes = make([]byte, n, c)
+		for i := range f.bytes {
+			f.bytes[i] = 0xEE
+		}
 	case frContainer, frFixedContainer:
 		for _, e := range f.elems {
 			flatPresize(e, n, c)
